@@ -60,6 +60,7 @@ type readOutcome struct {
 	Panic    string
 	Site     string
 	Reads    int
+	Stopped  bool // the consumer had all the bytes it wanted and stopped before the end of the stream
 }
 
 // chunkReader returns its data in pieces of the given size (0 = all at once). With eofWithData the
@@ -92,6 +93,12 @@ func (c *chunkReader) Read(p []byte) (int, error) {
 // libDecode reads comp through the real Reader with the cycling sequence of buffer sizes.
 // limit bounds the number of bytes accepted before giving up (TooMany).
 func libDecode(comp []byte, crc bool, sizes []int, srcChunk int, limit int) (o readOutcome) {
+	return libDecodeStop(comp, crc, sizes, srcChunk, limit, -1)
+}
+
+// libDecodeStop: a consumer that knows the size stops reading once it has stopAt bytes (>= 0) and closes
+// without ever seeing the end of the stream.
+func libDecodeStop(comp []byte, crc bool, sizes []int, srcChunk int, limit int, stopAt int) (o readOutcome) {
 	o.Panic, o.Site = core.Catch(func() {
 		var src io.Reader = bytes.NewReader(comp)
 		switch {
@@ -138,6 +145,10 @@ func libDecode(comp []byte, crc bool, sizes []int, srcChunk int, limit int) (o r
 			}
 			if len(o.Data) > limit {
 				o.TooMany = true
+				break
+			}
+			if stopAt >= 0 && len(o.Data) >= stopAt {
+				o.Stopped = true
 				break
 			}
 		}
